@@ -336,11 +336,22 @@ def run(tier):
         "finds a history with a stale diagnostic" if not rp.ok else "FAILED to find the stale-diagnostic history")
     if rp.ok:
         raise common.ToolError("self-test: TLC no longer finds the stale-diagnostic history in the pinned design")
+    # every history of ANY length: without the history variables the state is finite; TLC closes the complete graph
+    ru = run_tlc("Lsp", "Lsp_unbounded.cfg", workers=4, timeout=900, tags=("REPLAY",))
+    chk.add_tlc(ru)
+    if not ru.ok:
+        chk.violation("C15|design", "Lsp.tla violates an invariant on the complete (unbounded-history) state graph", {"tlc": ru.violation})
+    quiescent = sorted(ru.lines.get("REPLAY", []), key=lambda x: json.dumps(x, sort_keys=True))
+    if ru.ok and (ru.distinct < 10000 or len(quiescent) < 300):
+        raise common.ToolError("Lsp_unbounded.cfg: complete graph smaller than expected (%s distinct, %d quiescent)" % (ru.distinct, len(quiescent)))
+    chk.notes["complete_graph"] = "Lsp_unbounded.cfg: %s distinct states, all histories of any length; %d quiescent states, one shortest history each, all replayed" % (
+        ru.distinct, len(quiescent))
     replays = sorted(r.lines.get("REPLAY", []), key=lambda x: json.dumps(x, sort_keys=True))   # TLC's output order is not deterministic
     n_all = len(replays)
     nrep = 250 if tier == "quick" else 4000
     if len(replays) > nrep:
         replays = rng.sample(replays, nrep)
+    replays = quiescent + replays
     chk.cov["exhaustive"] = False
     jobs = []
     for i, rep in enumerate(replays):
